@@ -392,4 +392,31 @@ def c05_g(ctx: Ctx):
     return res
 
 
-RULES = [c05_a, c05_b, c05_c, c05_d, c05_e, c05_f, c05_g]
+@rule("C05-h")
+def c05_h(ctx: Ctx):
+    """A schema migration adds to the project document, it never replaces or empties it: no reset() / clear() / whole-document assignment on a document handle in
+    the migration package (an error while adding the key must refuse the migration, not discard the user's data)."""
+    R = "C05-h"
+    out = []
+    n = 0
+    for f in ctx.prog.funcs.values():
+        if not f.module.name.startswith("signac.migration") or f.module.is_dep:
+            continue
+        docs = {t.id for a in body_nodes(f) if isinstance(a, ast.Assign) and isinstance(a.value, ast.Call) and (dotted(a.value.func) or "").split(".")[-1] in ("BufferedJSONAttrDict", "JSONAttrDict", "JSONDict")
+                for t in a.targets if isinstance(t, ast.Name)}
+        for c in body_nodes(f):
+            if isinstance(c, ast.Call) and isinstance(c.func, ast.Attribute) and isinstance(c.func.value, ast.Name) and c.func.value.id in docs:
+                n += 1
+                k = f"{f.qual}|document-preserved"
+                if c.func.attr in ("reset", "clear", "pop", "popitem"):
+                    out.append(ctx.viol(R, f, c, f"the migration calls {canon(c)[:60]} on the project document: whatever the document held is discarded and the migration reports success",
+                                        construct=k))
+        if docs:
+            k = f"{f.qual}|document-preserved"
+            if not any(r.construct == k for r in out):
+                out.append(ctx.ok(R, f, f.node, "the project document is only added to", construct=k))
+    if not out:
+        out.append(ctx.ok(R, None, None, "no migration step opens a document", construct="signac.migration|document-preserved", nontrivial=False))
+    return out
+
+RULES = [c05_a, c05_b, c05_c, c05_d, c05_e, c05_f, c05_g, c05_h]
